@@ -560,6 +560,183 @@ pub fn run_stream(args: &Args, out: &mut Out, hist: &mut Hist) {
     }
 }
 
+
+// ------------------------------------------------------------------------------------------------ C02.vex
+/// `C02.vex`: expression functions `T f1(in params) { return E; }` for the Lean vector layer (`Model.GenMslVec`):
+/// request `C02.vex \t source \t function \t argument vectors \t vars=<id>:<emitted name>:<type>,… \t <IR of E>`,
+/// observation `vast <the Metal exporter's tree of E> ;; run <IR value per vector>`; the oracle is the one of `C02.vfn`
+pub fn vex_program(src: &str, only: Option<&[Vec<VV>]>, nvec: usize, rng: &mut Rng, out: &mut Out, hist: &mut Hist) {
+    let src1 = one_line(src);
+    let skip = |out: &mut Out, why: &str| out.case(&format!("C02.vex\t{}\t-\t\t-\t-", src1), "skip", &format!("SKIP:{}", why));
+    let p = match mprepare(src, &mut Hist::default()) {
+        Ok(p) => p,
+        Err(why) => {
+            hist.add("x:skip:front-end");
+            skip(out, &why);
+            return;
+        }
+    };
+    hist.add("x:programs");
+    let emitted = guard(|| rssl_msl::verif_generate_ast(&p.ir));
+    let (fid, src_name, emitted_name) = match p.funcs.last() {
+        Some(f) => f.clone(),
+        None => return skip(out, "no function"),
+    };
+    let irf = match p.prog.iter().find(|x| x.head() == "fn" && x.args()[0].atom() == fid.to_string()) {
+        Some(f) => f,
+        None => return skip(out, "no IR function"),
+    };
+    let ret_expr = match irf.args()[3].args() {
+        [r] if r.head() == "ret" && r.args().len() == 1 => r.args()[0].clone(),
+        _ => return skip(out, "not an expression function"),
+    };
+    let irv = match IrV::new(&p.prog) {
+        Some(v) if has_unsupported(&p.prog).is_none() => v,
+        _ => {
+            out.case(&format!("C02.vex\t{}\t{}\t\t-\t-", src1, src_name), "unsupported ir", "ok");
+            return;
+        }
+    };
+    let pts = irv.param_types(fid).unwrap_or_default();
+    let vectors: Vec<Vec<VV>> = match only {
+        Some(v) => v.to_vec(),
+        None => (0..nvec).map(|k| pts.iter().map(|(_, t)| arg_value(rng, &irv.types, t, k == 0).unwrap_or(VV::S(V::Void))).collect()).collect(),
+    };
+    let ir_results: Vec<Option<VOutcome>> = vectors.iter().map(|v| irv.run(fid, v)).collect();
+    vtake_why();
+    let rets = ir_results
+        .iter()
+        .map(|o| match o {
+            Some(o) => o.ret.as_ref().map(|v| v.show()).unwrap_or_else(|| "v".into()),
+            None => "none".into(),
+        })
+        .collect::<Vec<_>>()
+        .join(" | ");
+    let mut fails: Vec<String> = Vec::new();
+    let (req, obs) = match &emitted {
+        Ok(Ok(m)) => {
+            let items = vmconv::module(m);
+            let def = items.iter().find(|i| i.head() == "fn" && i.args()[0].atom() == emitted_name).cloned();
+            match def {
+                Some(d) if has_unsupported(std::slice::from_ref(&d)).is_none() => {
+                    let mparams = d.args()[2].args().to_vec();
+                    let body = d.args()[3].args().to_vec();
+                    let iparams = irf.args()[2].args();
+                    let vars: Vec<String> = iparams
+                        .iter()
+                        .zip(&mparams)
+                        .map(|(ip, mp)| format!("{}:{}:{}", ip.args()[0].atom(), if mp.head() == "val" { mp.args()[1].atom() } else { "?" }, ip.args()[2].show()))
+                        .collect();
+                    let req = format!("C02.vex\t{}\t{}\t{}\tvars={}\t{}", src1, src_name, show_vvectors(&vectors), vars.join(","), ret_expr.show());
+                    let obs = match body.as_slice() {
+                        [r] if r.head() == "ret" && r.args().len() == 1 && mparams.len() == iparams.len() && mparams.iter().all(|m| m.head() == "val") => {
+                            format!("vast {} ;; run {}", r.args()[0].show(), rets)
+                        }
+                        _ => "unsupported not-an-expression-function".to_string(),
+                    };
+                    // oracle: the Metal reading of the whole emitted function
+                    if let Some(me) = MslV::new(&items, false, false) {
+                        for (v, want) in vectors.iter().zip(&ir_results) {
+                            let want = match want {
+                                Some(w) => w,
+                                None => {
+                                    hist.add("x:vector:ir-undefined");
+                                    continue;
+                                }
+                            };
+                            hist.add("x:vector:defined");
+                            let top: Vec<TopArg> = v.iter().map(|x| TopArg::Val(x.clone())).collect();
+                            vmev::take_stuck();
+                            vmev::take_hazards();
+                            let got = me.run(&emitted_name, &top, &[]);
+                            let why = vmev::take_stuck();
+                            vmev::take_hazards();
+                            let ok = match (&got, &want.ret) {
+                                (Some((Some(g), _, _)), Some(w)) => same_value(w, g),
+                                _ => false,
+                            };
+                            if !ok {
+                                if matches!(why, Some((Stuck::Skip, _))) {
+                                    hist.add("x:vector:skip");
+                                    continue;
+                                }
+                                let detail = format!(
+                                    "{} args [{}]: IR gives {} but the emitted Metal gives {}{}",
+                                    emitted_name,
+                                    v.iter().map(|x| x.show()).collect::<Vec<_>>().join(","),
+                                    want.ret.as_ref().map(|x| x.show()).unwrap_or_default(),
+                                    got.as_ref().and_then(|g| g.0.as_ref()).map(|x| x.show()).unwrap_or_else(|| "nothing".into()),
+                                    why.as_ref().map(|w| format!(" (stuck at: {})", w.1)).unwrap_or_default()
+                                );
+                                match &why {
+                                    Some((Stuck::Class(c), _)) => fails.push(format!("class:{} ## {}", c, detail)),
+                                    _ => fails.push(detail),
+                                }
+                            }
+                        }
+                    }
+                    (req, obs)
+                }
+                Some(_) => (format!("C02.vex\t{}\t{}\t{}\t-\t-", src1, src_name, show_vvectors(&vectors)), "unsupported metal-tree".to_string()),
+                None => {
+                    fails.push(format!("function {} missing from the exported module", emitted_name));
+                    (format!("C02.vex\t{}\t{}\t{}\t-\t-", src1, src_name, show_vvectors(&vectors)), "missing".to_string())
+                }
+            }
+        }
+        Ok(Err(e)) => (format!("C02.vex\t{}\t{}\t{}\t-\t-", src1, src_name, show_vvectors(&vectors)), format!("diagnostic {}", one_line(&format!("{:?}", e)).chars().take(60).collect::<String>())),
+        Err(pn) => {
+            fails.push(format!("panic {}", pn));
+            // the model sees the request: does it predict the panic?
+            let vars: Vec<String> = irf.args()[2].args().iter().map(|ip| format!("{}:p{}:{}", ip.args()[0].atom(), ip.args()[0].atom(), ip.args()[2].show())).collect();
+            (format!("C02.vex\t{}\t{}\t{}\tvars={}\t{}", src1, src_name, show_vvectors(&vectors), vars.join(","), ret_expr.show()), format!("panic {}", panic_category(pn)))
+        }
+    };
+    hist.add(if obs.starts_with("vast ") { "x:fn:supported" } else { "x:fn:other" });
+    let first = fails.iter().find(|f| !f.starts_with("class:")).or(fails.first());
+    let oracle = match first {
+        Some(f) => format!("FAIL:{}", f),
+        None => "ok".to_string(),
+    };
+    out.case(&req, &obs, &oracle);
+}
+
+/// the k-th expression function of the vector-model stream
+pub fn vex_source(seed: u64, k: u64) -> String {
+    let mut rng = Rng::new(seed.wrapping_mul(0x2545_F491_4F6C_DD1D) ^ k.wrapping_mul(0x9E37_79B9_7F4A_7C15) ^ 0x6d766578);
+    if k % 4 == 3 {
+        return vgenm::vex_extra(&mut rng);
+    }
+    let opts = vgen::VGenOpts { max_depth: 1 + (k % 4) as u32, matrices: false, structs: false, enums: false, pure: true };
+    vgen::VGen::new(&mut rng, opts).expression_function()
+}
+
+pub fn run_vex_stream(args: &Args, out: &mut Out, hist: &mut Hist) {
+    let n = if args.thorough() { 4000 } else { 400 };
+    for k in 0..n {
+        let src = vex_source(args.seed, k);
+        let mut arng = Rng::new(args.seed ^ (k.wrapping_mul(0x9E37_79B9_7F4A_7C15)) ^ 0x7e8);
+        if let Err(pn) = guard(|| vex_program(&src, None, 6, &mut arng, out, hist)) {
+            hist.add("x:harness-panic");
+            out.case(&format!("C02.vex\t{}\t-\t\t-\t-", one_line(&src)), "harness-panic", &format!("SKIP:harness panic {}", pn));
+        }
+    }
+}
+
+pub fn run_vex_request(line: &str, out: &mut Out, hist: &mut Hist) {
+    let f: Vec<&str> = line.split('\t').collect();
+    if f.len() < 4 || f[0] != "C02.vex" {
+        return;
+    }
+    let src = unescape(f[1]);
+    let vecs = parse_vvectors(f[3]).unwrap_or_else(|| vec![vec![]]);
+    let mut rng = Rng::new(1);
+    let r = if f[2] == "-" { guard(|| vex_program(&src, None, 3, &mut rng, out, hist)) } else { guard(|| vex_program(&src, Some(&vecs), vecs.len(), &mut rng, out, hist)) };
+    if let Err(pn) = r {
+        out.case(&format!("C02.vex\t{}\t{}\t{}\t-\t-", f[1], f[2], f[3]), "harness-panic", &format!("SKIP:harness panic {}", pn));
+    }
+}
+
 pub fn dump(path: &str) {
     let src = std::fs::read_to_string(path).unwrap_or_default();
     match compile_src(&src, Tgt::Msl, Mode::NoPipeline) {
